@@ -35,10 +35,11 @@ def dyadic(fr):
 
 
 CONFIGS = []
-for _v in (1, 2, 5, 10, 125, 250, 500, 1000, 2000):
+# (period values that are decimals without exact binary representation: 0.067 s is 67 ms - the number that was written)
+for _v in (1, 2, 5, 10, 125, 250, 500, 1000, 2000, 0.067, 0.3, 0.007, 1.1, 2.5):
     for _pu in U:
         for _du in U:
-            _P = Fraction(_v * U[_pu], U[_du])
+            _P = Fraction(str(_v)) * U[_pu] / U[_du]
             if dyadic(_P) and _P >= Fraction(1, 8):
                 CONFIGS.append((_v, _pu, _du))
 
@@ -103,7 +104,7 @@ def run(case, stamps):
 def check(case):
     v, pu = case['period']
     du = case['unit']
-    P = Fraction(v * U[pu], U[du])
+    P = Fraction(str(v)) * U[pu] / U[du]
     stamps_fr = make_stamps(P, case['t0k'], case['ks'])
     stamps = [float(s) for s in stamps_fr]
     assert all(Fraction(s) == f for s, f in zip(stamps, stamps_fr)), 'generator: stamp not exact'
@@ -233,8 +234,8 @@ def check_reuse(case):
     a, b = case['first'], case['second']
     v, pu = a['period']
     labels = ['mode:' + a['mode'], 'reuse', 'unit-change' if a['unit'] != b['unit'] else 'same-unit']
-    Pa = Fraction(v * U[pu], U[a['unit']])
-    Pb = Fraction(v * U[pu], U[b['unit']])
+    Pa = Fraction(str(v)) * U[pu] / U[a['unit']]
+    Pb = Fraction(str(v)) * U[pu] / U[b['unit']]
     if not (dyadic(Pa) and dyadic(Pb)):
         return PASS(False, labels + ['skipped-non-dyadic'])
     sa = make_stamps(Pa, a['t0k'], a['ks'])
